@@ -19,10 +19,13 @@ for d in sorted(glob.glob(os.path.join(HERE, "seeded", "C*_*"))):
         v = {0: "passes (not caught)", 1: "VIOLATION", 2: "undecided", 3: "checker error"}.get(r["exit"], str(r["exit"]))
         verdicts.append(f"{pid}: {v}")
         if r["exit"] == 1:
-            ob = next((l for l in r["lines"] if l.strip().startswith(("obligation:", "bounded check"))), "")
-            ob = ob.strip().replace("|", "/")
-            ob = ob.split("/")[-1] if ob.startswith("obligation:") else ob
-            kind = "baseline" if "was discharged in the committed baseline" in " ".join(r["lines"]) and "[failed" not in ob else "failed"
-            deciding.append(f"{pid}: {ob[:150]} ({kind})")
+            ob = next((l for l in r["lines"] if l.strip().startswith(("obligation:", "bounded check"))), "").strip()
+            kind = "failed" if ("[failed" in ob or ob.startswith("bounded check")) else "baseline"
+            if ob.startswith("obligation:"):
+                name = ob[len("obligation:"):].strip().split("  [")[0]
+                parts = name.split("/", 2)
+                ob = (parts[1].split(":")[-1] + " / " + parts[2]) if len(parts) == 3 else name
+            ob = ob.replace("|", "/")
+            deciding.append(f"{pid}: {ob[:170]} ({kind})")
     rows.append(f"| {name} | {what} ({needs}) | {'; '.join(verdicts)} | {' ; '.join(deciding) or '–'} |")
 print("\n".join(rows))
